@@ -724,6 +724,8 @@ impl<'a> Node<'a, RefCell<Ast>> {
         let mut stack = vec![self];
 
         while let Some(node) = stack.pop() {
+            #[cfg(comrak_verif)]
+            crate::verif::step();
             // Check that this node type is valid wrt to the type of its parent.
             if let Some(parent) = node.parent() {
                 if !can_contain_type(parent, &node.data.borrow().value) {
@@ -862,6 +864,8 @@ pub fn can_contain_type<'a>(node: &'a AstNode<'a>, child: &NodeValue) -> bool {
 pub(crate) fn ends_with_blank_line<'a>(node: &'a AstNode<'a>) -> bool {
     let mut it = Some(node);
     while let Some(cur) = it {
+        #[cfg(comrak_verif)]
+        crate::verif::step();
         if cur.data.borrow().last_line_blank {
             return true;
         }
@@ -878,6 +882,8 @@ pub(crate) fn ends_with_blank_line<'a>(node: &'a AstNode<'a>) -> bool {
 pub(crate) fn containing_block<'a>(node: &'a AstNode<'a>) -> Option<&'a AstNode<'a>> {
     let mut ch = Some(node);
     while let Some(n) = ch {
+        #[cfg(comrak_verif)]
+        crate::verif::step();
         if n.data.borrow().value.block() {
             return Some(n);
         }
